@@ -4,12 +4,12 @@
    ref_place (reference sequence), ProofsSeq.ref_st_step / ref_ll_step /
    ref_qu_step, ProofsPS.spec_ok (reference association list of the pointer
    slot), ProofsPS.seg (ring segment [alloc_index, alloc_index + free)). *)
-From MV Require Import C11.Model C11.Proofs gen.Params_C11.
+From MV Require Import Lib.Leaf C11.Model C11.Proofs gen.Params_C11.
 Local Open Scope Z_scope.
 
 (* ---- array list ---- *)
 
-(* Every operation with every int index (other than INT_MIN) on every state
+(* Every operation with every int index (INT_MIN included), with and without free-data callback, on every state
    that satisfies the representation invariant: the invariant is kept and the
    contents and result equal the reference list operation; when the operation
    needs storage it cannot get, it is rejected with no effect on contents,
@@ -81,14 +81,23 @@ Theorem queue_refines_seq : forall c ok s ops, qu_init c ok = Some s ->
 Proof. exact qu_history_refines. Qed.
 Print Assumptions queue_refines_seq.
 
-(* ---- pointer slot (repaired init: arrays sized by the rounded capacity) ---- *)
+(* ---- pointer slot (repaired init: arrays sized by the rounded capacity; requests above 2^31 refused) ---- *)
 
-(* In every state reachable from init with any requested capacity <= 2^31 and
-   any cursor preset: the ring segment [alloc_index, alloc_index + free) of
+(* every requested capacity of type unsigned int: up to 2^31 init succeeds (given memory) in a state that
+   satisfies the invariant, with capacity >= the request; above 2^31 (the next power of two does not fit an
+   unsigned int) it is refused, malloc or not *)
+Theorem ps_init_every_requested_capacity : forall req, 0 <= req < two32 ->
+  (req <= two31 -> exists s, ps_init req true = Some s /\ ps_inv s /\ req <= pcap s /\ 1 <= pcap s) /\
+  (two31 < req -> forall ok, ps_init req ok = None).
+Proof. exact ps_init_every_request. Qed.
+Print Assumptions ps_init_every_requested_capacity.
+
+(* In every state reachable from init with any requested capacity (every unsigned int for which init
+   succeeds, i.e. <= 2^31) and any cursor preset: the ring segment [alloc_index, alloc_index + free) of
    pp_slots lists exactly the free slots, without duplicates; free + live =
    capacity; the cursors are related modulo 2^32; the live list has no
    duplicates and is exactly the set of slots in use. *)
-Theorem ps_inv_reachable : forall req a s0 ops, 0 <= req <= two31 -> ps_init req true = Some s0 ->
+Theorem ps_inv_reachable : forall req a s0 ops, 0 <= req < two32 -> ps_init req true = Some s0 ->
   Forall op_ok ops ->
   exists s' rs, ps_run (ps_preset s0 a) ops = Some (s', rs) /\
     NoDup (seg s') /\ (forall sid, In sid (seg s') <-> slot_used (slots s') sid false) /\
@@ -101,7 +110,7 @@ Proof. exact ps_inv_reachable_lem. Qed.
 Print Assumptions ps_inv_reachable.
 
 (* reachable states satisfy the invariant used by the step theorems below *)
-Theorem ps_reachable_states_invariant : forall req a s0 ops s' rs, 0 <= req <= two31 -> ps_init req true = Some s0 ->
+Theorem ps_reachable_states_invariant : forall req a s0 ops s' rs, 0 <= req < two32 -> ps_init req true = Some s0 ->
   Forall op_ok ops -> ps_run (ps_preset s0 a) ops = Some (s', rs) -> ps_inv s'.
 Proof. exact ps_reachable_inv. Qed.
 Print Assumptions ps_reachable_states_invariant.
@@ -135,7 +144,7 @@ Print Assumptions ps_double_remove_refused.
 (* iteration yields the live (index, pointer) pairs in insertion order: it equals the
    reference association list driven by the results, and every result is one the
    reference allows (spec_ok) *)
-Theorem ps_iter_insertion_order : forall req a s0 ops, 0 <= req <= two31 -> ps_init req true = Some s0 ->
+Theorem ps_iter_insertion_order : forall req a s0 ops, 0 <= req < two32 -> ps_init req true = Some s0 ->
   Forall op_ok ops ->
   exists s' rs, ps_run (ps_preset s0 a) ops = Some (s', rs) /\
     ps_iter s' = ProofsPS.ref_run [] ops rs /\ spec_run_ok (pcap s0) [] ops rs.
@@ -152,12 +161,19 @@ Print Assumptions ps_step_refines_spec.
 (* for every requested capacity no operation of any history reads or writes outside
    slots[] / pp_slots[] (the model returns None on such an access), and both
    arrays have the rounded capacity, which is >= the request *)
-Theorem ps_all_capacities : forall req a s0 ops, 0 <= req <= two31 -> ps_init req true = Some s0 ->
+Theorem ps_all_capacities : forall req a s0 ops, 0 <= req < two32 -> ps_init req true = Some s0 ->
   Forall op_ok ops ->
   ps_run (ps_preset s0 a) ops <> None /\ ps_run s0 ops <> None /\
   zlen (slots s0) = pcap s0 /\ zlen (pp s0) = pcap s0 /\ req <= pcap s0 /\ 1 <= pcap s0.
 Proof. exact ps_all_capacities_lem. Qed.
 Print Assumptions ps_all_capacities.
+
+(* the code before fixes/C11-pointer-slot-capacity-overflow.patch accepted a request above 2^31 with capacity 0
+   and the first insert touched memory outside pp_slots[] *)
+Theorem ps_capacity_overflow_refuted_before_repair :
+  exists s, ps_init_unchecked 2147483649 true = Some s /\ pcap s = 0 /\ ps_run s [PIns 1] = None.
+Proof. exact ps_unchecked_overflow_witness. Qed.
+Print Assumptions ps_capacity_overflow_refuted_before_repair.
 
 (* the same statement is false for the code before fixes/C11-pointer-slot-alloc-rounded.patch *)
 Theorem ps_all_capacities_refuted_before_repair :
@@ -234,7 +250,7 @@ Print Assumptions queue_heap_refines_seq.
 (* pointer slot, every history from init (+ cursor preset), every requested capacity: the
    head..tail list threaded through slots[] is a well-formed chain over exactly the live
    sequence of the functional model; iterating it gives ps_iter (insertion order) *)
-Theorem ps_heap_refines_live_list : forall req a hs0 ops, 0 <= req <= two31 -> hps_init req true = Some hs0 ->
+Theorem ps_heap_refines_live_list : forall req a hs0 ops, 0 <= req < two32 -> hps_init req true = Some hs0 ->
   Forall op_ok ops ->
   exists hs' rs, hps_run (hps_preset hs0 a) ops = Some (hs', rs) /\
                  ps_run (ps_preset (hcore hs0) a) ops = Some (hcore hs', rs) /\
@@ -249,3 +265,138 @@ Theorem gen_get_index_eq : forall s index, al_inv s -> int_ok index ->
   gen_muggle_array_list_get_index (asize s) index = al_get_index s index.
 Proof. exact gen_get_index_matches_model. Qed.
 Print Assumptions gen_get_index_eq.
+
+(* ---- second tie, slicer kind (DESIGN.md 4.4, lib/props/c11_slice.py): the pointer-splicing, cursor and
+        index-range code of the current C text, symbolically executed into the gen_ definitions of
+        gen/Params_C11.v on this run (node pointers = ids, p->next / p->prev / p->data stores = updates of the
+        maps, HEAD / TAIL = the sentinels, NULLP = NULL), does exactly what the models do.
+        ll_res_ok g ret h size cb fr : the generated result g = (return value, next, prev, data maps, size, data
+        handed to the free callback, nodes released) has return value ret, maps pointwise equal to those of
+        heap h, that size and those lists. ---- *)
+
+(* muggle_linked_list_insert, every related pair of states, every position and NULL, with and without pool,
+   allocation failure included *)
+Theorem gen_ll_insert_eq : forall hs s pos data ok f_pool, ll_inv s -> hl_R hs s ->
+  match pos with None => True | Some k => pos_ok s k = true end -> lsize s < two64 - 1 ->
+  ll_res_ok (gen_ll_insert (hnext (hh hs)) (hprev (hh hs)) (hdata (hh hs)) f_pool (hsize hs) (alloc_res hs ok)
+                           (optp (node_arg s pos)) data)
+            (optp (snd (hl_insert hs (node_arg s pos) data ok))) (hh (fst (hl_insert hs (node_arg s pos) data ok)))
+            (hsize (fst (hl_insert hs (node_arg s pos) data ok))) [] [].
+Proof. exact gen_ll_insert_matches_model. Qed.
+Print Assumptions gen_ll_insert_eq.
+
+Theorem gen_ll_append_eq : forall hs s pos data ok f_pool, ll_inv s -> hl_R hs s ->
+  match pos with None => True | Some k => pos_ok s k = true end -> lsize s < two64 - 1 ->
+  ll_res_ok (gen_ll_append (hnext (hh hs)) (hprev (hh hs)) (hdata (hh hs)) f_pool (hsize hs) (alloc_res hs ok)
+                           (optp (node_arg s pos)) data)
+            (optp (snd (hl_append hs (node_arg s pos) data ok))) (hh (fst (hl_append hs (node_arg s pos) data ok)))
+            (hsize (fst (hl_append hs (node_arg s pos) data ok))) [] [].
+Proof. exact gen_ll_append_matches_model. Qed.
+Print Assumptions gen_ll_append_eq.
+
+(* muggle_linked_list_remove, with (cb = true) and without (cb = false) free-data callback: returns the following
+   node (NULL at the end), hands the datum to the callback when there is one and the datum is not NULL, clears the
+   data pointer, unlinks and releases exactly that node *)
+Theorem gen_ll_remove_eq : forall hs s k cb f_pool newp p_pool, ll_inv s -> hl_R hs s ->
+  pos_ok s k = true -> lsize s < two64 ->
+  ll_res_ok (gen_ll_remove (hnext (hh hs)) (hprev (hh hs)) (hdata (hh hs)) f_pool (hsize hs) newp (node_at s k) (b2z cb) p_pool)
+            (optp (snd (fst (hl_remove hs (node_at s k) cb)))) (hh (fst (fst (hl_remove hs (node_at s k) cb))))
+            (hsize (fst (fst (hl_remove hs (node_at s k) cb)))) (snd (hl_remove hs (node_at s k) cb)) [node_at s k].
+Proof. exact gen_ll_remove_matches_model. Qed.
+Print Assumptions gen_ll_remove_eq.
+
+Theorem gen_qu_enqueue_eq : forall hs q data ok f_pool, qu_inv q -> hq_R hs q -> qsize q < two64 - 1 ->
+  ll_res_ok (gen_qu_enqueue (hnext (hh hs)) (hprev (hh hs)) (hdata (hh hs)) f_pool (hsize hs) (alloc_res hs ok) data)
+            (optp (snd (hq_enqueue hs data ok))) (hh (fst (hq_enqueue hs data ok)))
+            (hsize (fst (hq_enqueue hs data ok))) [] [].
+Proof. exact gen_qu_enqueue_matches_model. Qed.
+Print Assumptions gen_qu_enqueue_eq.
+
+Theorem gen_qu_dequeue_eq : forall hs q cb f_pool newp p_pool, qu_inv q -> hq_R hs q -> qsize q < two64 ->
+  ll_res_ok (gen_qu_dequeue (hnext (hh hs)) (hprev (hh hs)) (hdata (hh hs)) f_pool (hsize hs) newp (b2z cb) p_pool)
+            0 (hh (fst (hq_dequeue hs cb))) (hsize (fst (hq_dequeue hs cb))) (snd (hq_dequeue hs cb))
+            (if hl_is_empty hs then [] else [hnext (hh hs) HEAD]).
+Proof. exact gen_qu_dequeue_matches_model. Qed.
+Print Assumptions gen_qu_dequeue_eq.
+
+(* muggle_pointer_slot_insert / _remove on every state satisfying the invariant (every capacity, cursors anywhere
+   in [0, 2^32)): the ring position (whatever way the text reduces the cursor modulo the capacity), the full test,
+   the 32-bit wrap of the cursors, the pp_slots store, in_used / data, the live-list splice, the index written to
+   *slot_idx and the error code of this run's err.h are those of Model.ps_insert / ps_remove + ModelHeap *)
+Theorem gen_ps_insert_eq : forall s data, ps_inv (hcore s) ->
+  exists s' r sid, hps_insert s data = Some (s', (r, sid)) /\
+    ps_res_ok (fst (gen_ps_insert (hnext (hlinks s)) (hprev (hlinks s)) (slot_data (slots (hcore s)))
+                                  (iu_of (slots (hcore s))) (fun k => k) (pp (hcore s))
+                                  (alloc_index (hcore s)) (pcap (hcore s)) (free_index (hcore s)) data))
+              (pres_code r) s' /\
+    snd (gen_ps_insert (hnext (hlinks s)) (hprev (hlinks s)) (slot_data (slots (hcore s)))
+                       (iu_of (slots (hcore s))) (fun k => k) (pp (hcore s))
+                       (alloc_index (hcore s)) (pcap (hcore s)) (free_index (hcore s)) data) = sid.
+Proof. exact gen_ps_insert_matches_model. Qed.
+Print Assumptions gen_ps_insert_eq.
+
+Theorem gen_ps_remove_eq : forall s idx, ps_inv (hcore s) -> 0 <= idx < two32 ->
+  exists s' r, hps_remove s idx = Some (s', r) /\
+    ps_res_ok (gen_ps_remove (hnext (hlinks s)) (hprev (hlinks s)) (slot_data (slots (hcore s)))
+                             (iu_of (slots (hcore s))) (fun k => k) (pp (hcore s))
+                             (alloc_index (hcore s)) (pcap (hcore s)) (free_index (hcore s)) idx)
+              (pres_code r) s'.
+Proof. exact gen_ps_remove_matches_model. Qed.
+Print Assumptions gen_ps_remove_eq.
+
+(* array list / stack.  al_out ret s oarg msz cb = (ret, nodes s, acap s, asize s, oarg, msz, cb): return value
+   (offset of the node, -1 = NULL; 1 / 0 for bool), the whole storage cell by cell, capacity, size, the capacity
+   asked from ensure_capacity (-1 = not called: grow_arg = twice the capacity exactly when size = capacity),
+   the size asked from malloc, the data handed to the free callback.  ensure_capacity is opaque inside insert /
+   append / push and tied on its own (fresh storage = zeros). *)
+Theorem gen_al_insert_eq : forall s index data ok m1 m1_ok, al_inv s -> int_ok index ->
+  gen_al_insert (nodes s) (acap s) (asize s) m1 m1_ok
+                (b2z (snd (al_ensure s (acap s * 2) ok))) (acap (fst (al_ensure s (acap s * 2) ok)))
+                (nodes (fst (al_ensure s (acap s * 2) ok))) index data =
+  al_out (optz (snd (al_insert s index data ok))) (fst (al_insert s index data ok))
+         (grow_arg (asize s) (acap s)) (-1) [].
+Proof. exact gen_al_insert_matches_model. Qed.
+Print Assumptions gen_al_insert_eq.
+
+Theorem gen_al_append_eq : forall s index data ok m1 m1_ok, al_inv s -> int_ok index ->
+  gen_al_append (nodes s) (acap s) (asize s) m1 m1_ok
+                (b2z (snd (al_ensure s (acap s * 2) ok))) (acap (fst (al_ensure s (acap s * 2) ok)))
+                (nodes (fst (al_ensure s (acap s * 2) ok))) index data =
+  al_out (optz (snd (al_append s index data ok))) (fst (al_append s index data ok))
+         (grow_arg (asize s) (acap s)) (-1) [].
+Proof. exact gen_al_append_matches_model. Qed.
+Print Assumptions gen_al_append_eq.
+
+Theorem gen_al_remove_eq : forall s index cb m1 m1_ok ores hc hn p_pool, al_inv s -> int_ok index ->
+  gen_al_remove (nodes s) (acap s) (asize s) m1 m1_ok ores hc hn index (b2z cb) p_pool =
+  al_out (b2z (snd (fst (al_remove s index cb)))) (fst (fst (al_remove s index cb))) (-1) (-1) (snd (al_remove s index cb)).
+Proof. exact gen_al_remove_matches_model. Qed.
+Print Assumptions gen_al_remove_eq.
+
+Theorem gen_al_ensure_eq : forall s c ok ores hc hn, al_inv s -> 0 <= c < two64 ->
+  gen_al_ensure (nodes s) (acap s) (asize s) (repeat 0 (Z.to_nat c)) (b2z ok) ores hc hn c =
+  al_out (b2z (snd (al_ensure s c ok))) (fst (al_ensure s c ok)) (-1)
+         (if (acap s >=? c) || negb (cap_is_valid c) then -1 else 8 * c) [].
+Proof. exact gen_al_ensure_matches_model. Qed.
+Print Assumptions gen_al_ensure_eq.
+
+Theorem gen_st_push_eq : forall s data ok m1 m1_ok, st_inv s ->
+  gen_st_push (snodes s) (scap s) (stop s) m1 m1_ok
+              (b2z (snd (st_ensure s (scap s * 2) ok))) (scap (fst (st_ensure s (scap s * 2) ok)))
+              (snodes (fst (st_ensure s (scap s * 2) ok))) data =
+  st_out (optz (snd (st_push s data ok))) (fst (st_push s data ok)) (grow_arg (stop s) (scap s)) (-1) [].
+Proof. exact gen_st_push_matches_model. Qed.
+Print Assumptions gen_st_push_eq.
+
+Theorem gen_st_pop_eq : forall s cb m1 m1_ok ores hc hn p_pool, st_inv s ->
+  gen_st_pop (snodes s) (scap s) (stop s) m1 m1_ok ores hc hn (b2z cb) p_pool =
+  st_out 0 (fst (st_pop s cb)) (-1) (-1) (snd (st_pop s cb)).
+Proof. exact gen_st_pop_matches_model. Qed.
+Print Assumptions gen_st_pop_eq.
+
+Theorem gen_st_ensure_eq : forall s c ok ores hc hn, st_inv s -> 0 <= c < two64 ->
+  gen_st_ensure (snodes s) (scap s) (stop s) (repeat 0 (Z.to_nat c)) (b2z ok) ores hc hn c =
+  st_out (b2z (snd (st_ensure s c ok))) (fst (st_ensure s c ok)) (-1)
+         (if (scap s >=? c) || negb (cap_is_valid c) then -1 else 8 * c) [].
+Proof. exact gen_st_ensure_matches_model. Qed.
+Print Assumptions gen_st_ensure_eq.
